@@ -60,13 +60,35 @@ func newSingleReporter returns (r)
   ensures @fresh r != nil && fresh(r) && r.output != nil && fresh(r.output) && r.db == db && r.config == config
   ensures @sink [C17] bufSink == store(old(bufSink), r.output, payload(config.Output)) && bufSticky == store(old(bufSticky), r.output, false)
 
+// One row per day for the chosen element S: its positive and negative contributions of that day are exactly
+// EPos / ENeg (the figures of the register's daily totals and of `report totals`, C07); no row when the day
+// contributes nothing to S.
 func (*singleReporter).Process returns (err)
-  props C17 C08
-  requires @args r != nil && ln != nil && r.output != nil && DBOk(r.db)
+  props C17 C08 C07 C12
+  requires @args r != nil && ln != nil && r.output != nil && DBIs(r.db)
   modifies ghost(accKey, accP, accN, accH, bufSticky, sinkFailed, sinkPend, prLen, prSink, prArg, prArgs)
+  let E0 := elems(ln.Elements)
+  let N0 := len(ln.Elements)
+  let S := r.config.SingleElement
+  let B := prLen
   ensures @sink [C17] BufStep(r.output) && err == nil
-  loop 1 { invariant @acc r == old(r) && ln == old(ln) && WfAcc(acc) && AccView(acc) && fresh(acc) && singleElement == r.config.SingleElement && (forall x string :: {x in accH[acc]} x in accH[acc] ==> x == singleElement) && (forall k string :: {acc[k]} k in acc ==> arr(acc[k]) >= old(alloc())) }
-  loop 2 { invariant @acc r == old(r) && ln == old(ln) && WfAcc(acc) && AccView(acc) && fresh(acc) && singleElement == r.config.SingleElement && (forall x string :: {x in accH[acc]} x in accH[acc] ==> x == singleElement) && (forall k string :: {acc[k]} k in acc ==> arr(acc[k]) >= old(alloc())) }
+  ensures @no-row [C07 C12] !EHas(E0, N0, S) ==> prLen == B
+  ensures @row [C07 C12] EHas(E0, N0, S) ==> prLen == B + 1 && PrintedStr(B, 0, FormatTime(ln.Time, r.config.DateFormat)) && PrintedStr(B, 1, S) && PrintedF(B, 2, EPos(E0, N0, S)) && PrintedF(B, 3, -1.0 * ENeg(E0, N0, S)) && PrintedF(B, 4, EPos(E0, N0, S) + ENeg(E0, N0, S))
+  loop 1 {
+    pre { unfold EPos(E0, 0, S); unfold ENeg(E0, 0, S); unfold EHas(E0, 0, S) }
+    invariant @acc r == old(r) && ln == old(ln) && WfAcc(acc) && AccView(acc) && fresh(acc) && singleElement == S && (forall x string :: {x in accH[acc]} x in accH[acc] ==> x == singleElement) && (forall k string :: {acc[k]} k in acc ==> arr(acc[k]) >= old(alloc()))
+    invariant @params elems(ln.Elements) == E0 && len(ln.Elements) == N0 && ln.Elements == old(ln.Elements) && DBIs(r.db) && prLen == B && r.config == old(r.config)
+    invariant @figures accP[acc][S] == EPos(E0, #i, S) && accN[acc][S] == ENeg(E0, #i, S) && (S in accH[acc]) == EHas(E0, #i, S)
+    end { let i1 := #i + 1; unfold EPos(E0, i1, S); unfold ENeg(E0, i1, S); unfold EHas(E0, i1, S); unfold CPos(E0[i1 - 1].Name, E0[i1 - 1].Value, S); unfold CNeg(E0[i1 - 1].Name, E0[i1 - 1].Value, S); unfold CHas(E0[i1 - 1].Name, S) }
+  }
+  loop 2 {
+    pre { unfold CPosIn(RDB[e.Name], 0, e.Value, S); unfold CNegIn(RDB[e.Name], 0, e.Value, S); unfold SpecHas(RDB[e.Name], 0, S) }
+    invariant @acc r == old(r) && ln == old(ln) && WfAcc(acc) && AccView(acc) && fresh(acc) && singleElement == S && (forall x string :: {x in accH[acc]} x in accH[acc] ==> x == singleElement) && (forall k string :: {acc[k]} k in acc ==> arr(acc[k]) >= old(alloc()))
+    invariant @params elems(ln.Elements) == E0 && len(ln.Elements) == N0 && ln.Elements == old(ln.Elements) && DBIs(r.db) && prLen == B && r.config == old(r.config)
+    invariant @row e == E0[#i1] && 0 <= #i1 && #i1 < N0 && e.Name in RDBdom && elems(#coll) == RDB[e.Name] && len(#coll) == RDBlen[e.Name]
+    invariant @figures accP[acc][S] == EPos(E0, #i1, S) + CPosIn(RDB[e.Name], #i, e.Value, S) && accN[acc][S] == ENeg(E0, #i1, S) + CNegIn(RDB[e.Name], #i, e.Value, S) && (S in accH[acc]) == (EHas(E0, #i1, S) || SpecHas(RDB[e.Name], #i, S))
+    end { let j1 := #i + 1; unfold CPosIn(RDB[e.Name], j1, e.Value, S); unfold CNegIn(RDB[e.Name], j1, e.Value, S); unfold SpecHas(RDB[e.Name], j1, S) }
+  }
 
 // the row printer is verified as part of its caller
 func (*singleReporter).printSingleElementRow
